@@ -222,18 +222,18 @@ Section WithEnv.
     | _ => None
     end.
 
+  (* for param_name, _ in annotations.items(): if param_name == name: name = param_name
+     (a key that compares equal replaces the name: the str subclass of the key is what matters afterwards) *)
+  Definition canon_name (anns : list pname) (n : pname) : pname :=
+    fold_left (fun acc p => if text_eqb (pn_text p) (pn_text acc) then p else acc) anns n.
+
   Definition handle_param_name (i : nat) (f : field) (st : state) : option pname * state :=
     match f_arg f with
     | None => (None, add_report i RNameMissing [] 0 st)
     | Some a =>
-      let n := lstrip_star a in
-      let plain := {| pn_text := n; pn_star := SNone |} in
+      let plain := {| pn_text := lstrip_star a; pn_star := SNone |} in
       match annotations_of_source with
-      | Some anns =>
-        match find (fun p => text_eqb (pn_text p) n) anns with
-        | Some p => (Some p, st)
-        | None => (Some plain, st)
-        end
+      | Some anns => (Some (canon_name anns plain), st)
       | None => (Some plain, st)
       end
     end.
